@@ -36,7 +36,18 @@ pub enum Who {
 #[derive(Clone, Debug, PartialEq, Eq, Serialize, Deserialize)]
 pub enum Op {
     Listen { n: u8 },
-    Dial { n: u8, to: Target, with_peer: bool, p2p_suffix: bool, cond: u8, naddrs: u8, via_behaviour: bool },
+    Dial {
+        n: u8,
+        to: Target,
+        with_peer: bool,
+        p2p_suffix: bool,
+        cond: u8,
+        naddrs: u8,
+        via_behaviour: bool,
+        /// `DialOpts::override_role()`: the dial is executed "as a listener" (hole punching)
+        #[serde(default)]
+        override_role: bool,
+    },
     ResolveOk { n: u8, pick: u16, auth: Who, attach: bool },
     ResolveErr { n: u8, pick: u16 },
     /// macro: listen (target) + dial with peer + resolve first open dial ok (attached) + resolve inbound ok
@@ -46,6 +57,10 @@ pub enum Op {
     Close { n: u8, pick: u16 },
     BehClose { n: u8, field: u8, pick: u16, all: bool },
     Disconnect { n: u8, peer: u8 },
+    /// `disconnect_peer_id` (or `ToSwarm::CloseConnection{All}` from a behaviour field) for the peer of a dial that is
+    /// still pending; with `run_tasks` every woken task runs first, so that a dial whose transport already succeeded
+    /// has handed its result to the pool (queued, not yet consumed by a Swarm poll) when the abort arrives
+    DisconnectDialing { n: u8, pick: u16, run_tasks: bool, via_behaviour: bool },
     RemoteClose { pick: u16 },
     Fault { pick: u16 },
     Notify { n: u8, field: u8, pick: u16, any: bool, cmd: HCmd },
@@ -93,6 +108,9 @@ pub struct IdInfo {
     /// dial() returned Ok / Dialing seen / Incoming seen (=> belongs to C01's universe)
     pub handed_out: bool,
     pub sync_err: Option<ErrKind>,
+    pub role_override: bool,
+    /// the peer was disconnected while the dial's successful result was queued in the pool
+    pub raced: bool,
 }
 
 #[derive(Default)]
@@ -109,6 +127,7 @@ pub struct NodeModel {
     pub seen_dials: usize,
     /// behaviour-initiated dials waiting for their Dialing event: conn -> expected
     pub beh_dials: BTreeMap<u64, Option<PeerId>>,
+    pub beh_role_override: BTreeMap<u64, bool>,
     /// conn -> (auth given, link index)
     pub auths: BTreeMap<u64, Vec<(PeerId, usize)>>,
     pub max_simul_same_peer: usize,
@@ -130,10 +149,30 @@ pub struct Flags {
     pub inbound_est: u32,
     pub notifies: u32,
     pub two_node_links: u32,
+    /// dials built with override_role() that were accepted
+    pub role_override_dials: u32,
+    pub role_override_established: u32,
+    /// dial() rejected with DialPeerConditionFalse
+    pub cond_false: u32,
+    /// ... where the peer was not connected and every pending dial to it was a role-overridden one
+    pub cond_false_by_role_override_dial: u32,
+    /// accepted dials with a non-Always condition
+    pub cond_true: u32,
+    /// pending dials without a known peer id that failed (transport errors on every address)
+    pub unknown_peer_dial_failed: u32,
+    /// disconnect of the peer of a pending dial: at all / after the transport dial succeeded / with the result queued in the pool
+    pub disconnect_dialing: u32,
+    pub disconnect_after_resolution: u32,
+    pub disconnect_with_result_queued: u32,
+    /// ... and what became of those dials
+    pub queued_result_then_established: u32,
+    pub queued_result_then_aborted: u32,
 }
 
 pub struct RunResult {
     pub fails: Vec<(String, Value)>,
+    /// per failure: the length of the probe log when it was recorded (failures of the final checks: the whole log)
+    pub fail_at: Vec<u64>,
     pub flags: Flags,
     pub events: Vec<Vec<Ev>>,
     pub log: Vec<Rec>,
@@ -191,10 +230,16 @@ pub trait Ext<B: Probes> {
 impl<B: Probes> Ext<B> for () {}
 
 struct Interp<'x, B: Probes> {
+    /// signature prefix of the property under check: only its failures end the run; a disagreement that belongs to a
+    /// neighbouring property is recorded and the program continues (so that it cannot mask the property's own verdict,
+    /// e.g. the at-quiescence checks). None = every failure ends the run.
+    focus: Option<String>,
     ext: &'x mut dyn Ext<B>,
     w: World<B>,
     m: Vec<NodeModel>,
     fails: Vec<(String, Value)>,
+    /// length of the probe log when the failure of the same index was recorded
+    fail_at: Vec<u64>,
     flags: Flags,
     next_n: u64,
     emissions: Vec<Emission>,
@@ -207,10 +252,24 @@ impl<B: Probes> Interp<'_, B>
 where
     B::ToSwarm: std::fmt::Debug,
 {
+    fn in_focus(&self, sig: &str) -> bool {
+        self.focus.as_deref().map(|p| sig.starts_with(p)).unwrap_or(true)
+    }
+
     fn fail(&mut self, sig: &str, detail: Value) {
-        if self.fails.len() < 8 {
+        if self.in_focus(sig) || self.fails.len() < 8 {
+            let at = self.w.log.lock().unwrap().recs.len() as u64;
+            while self.fail_at.len() < self.fails.len() {
+                self.fail_at.push(at);
+            }
+            self.fail_at.push(at);
             self.fails.push((sig.to_string(), detail));
         }
+    }
+
+    /// a failure of the property under check was recorded
+    fn halted(&self) -> bool {
+        self.fails.iter().any(|(s, _)| self.in_focus(s))
     }
 
     fn check_counters(&mut self, i: usize, when: &str) {
@@ -260,9 +319,14 @@ where
         match ev {
             Ev::Dialing { conn, peer } => {
                 let exp = self.m[i].beh_dials.remove(conn);
+                let ro = self.m[i].beh_role_override.remove(conn).unwrap_or(false);
+                if ro {
+                    self.flags.role_override_dials += 1;
+                }
                 let info = self.m[i].ids.entry(*conn).or_default();
                 info.outbound = true;
                 info.handed_out = true;
+                info.role_override = ro;
                 info.expected = exp.unwrap_or(*peer);
                 self.m[i].pend_out += 1;
             }
@@ -290,6 +354,12 @@ where
                 info.established = true;
                 info.est_peer = Some(*peer);
                 let expected = info.expected;
+                if info.role_override {
+                    self.flags.role_override_established += 1;
+                }
+                if info.raced {
+                    self.flags.queued_result_then_established += 1;
+                }
                 m.sw_seq.push(('E', *conn));
                 if known {
                     if was_out {
@@ -382,6 +452,12 @@ where
                 let known = info.handed_out;
                 info.terminal.push(format!("OutgoingError:{err:?}"));
                 let expected = info.expected;
+                if info.raced && *err == ErrKind::Aborted {
+                    self.flags.queued_result_then_aborted += 1;
+                }
+                if peer.is_none() && expected.is_none() && *err == ErrKind::Transport {
+                    self.flags.unknown_peer_dial_failed += 1;
+                }
                 m.sw_seq.push(('D', *conn));
                 if known {
                     m.pend_out = m.pend_out.saturating_sub(1);
@@ -534,7 +610,7 @@ where
                     self.w.listen(i, listen_addr(i, k));
                 }
             }
-            Op::Dial { n, to, with_peer, p2p_suffix, cond, naddrs, via_behaviour } => {
+            Op::Dial { n, to, with_peer, p2p_suffix, cond, naddrs, via_behaviour, override_role } => {
                 let i = *n as usize % nn;
                 let expected = self.expected_of(i, *to);
                 let mut addrs: Vec<Multiaddr> = vec![];
@@ -558,23 +634,38 @@ where
                     _ => PeerCondition::Always,
                 };
                 let (opts, exp): (DialOpts, Option<PeerId>) = if *with_peer {
-                    (DialOpts::peer_id(expected).condition(cond).addresses(addrs).build(), Some(expected))
+                    let b = DialOpts::peer_id(expected).condition(cond).addresses(addrs);
+                    (if *override_role { b.override_role().build() } else { b.build() }, Some(expected))
                 } else {
                     let mut a = addrs[0].clone();
                     if *p2p_suffix {
                         a.push(Protocol::P2p(expected));
                     }
-                    let o = DialOpts::unknown_peer_id().address(a).build();
+                    let b = DialOpts::unknown_peer_id().address(a);
+                    let o = if *override_role { b.override_role().build() } else { b.build() };
                     let e = o.get_peer_id();
                     (o, e)
                 };
                 let id = simswarm::probe::cid(opts.connection_id());
                 if *via_behaviour {
                     self.m[i].beh_dials.insert(id, exp);
+                    self.m[i].beh_role_override.insert(id, *override_role);
                     self.w.nodes[i].swarm.behaviour_mut().probe(0).push_cmd(ToSwarm::Dial { opts });
                 } else {
                     let before = self.w.n_dials(i);
-                    let was_dialing_same = self.m[i].ids.values().any(|x| x.outbound && x.handed_out && x.terminal.is_empty() && x.expected == exp && exp.is_some());
+                    // the state the PeerCondition is about, from the history: connected = an established and not yet
+                    // closed connection to the peer; dialing = an accepted dial for the peer without a terminal event
+                    // (whatever role the dial was made in)
+                    let connected = exp.map(|p| self.m[i].est.contains_key(&p)).unwrap_or(false);
+                    let dialing_any = exp.is_some() && self.m[i].ids.values().any(|x| x.outbound && x.handed_out && x.terminal.is_empty() && x.expected == exp);
+                    let dialing_plain = exp.is_some() && self.m[i].ids.values().any(|x| x.outbound && x.handed_out && x.terminal.is_empty() && x.expected == exp && !x.role_override);
+                    let effective_cond = if *with_peer { cond } else { PeerCondition::Always };
+                    let should = match effective_cond {
+                        PeerCondition::Always => true,
+                        PeerCondition::Disconnected => !connected,
+                        PeerCondition::NotDialing => !dialing_any,
+                        PeerCondition::DisconnectedAndNotDialing => !connected && !dialing_any,
+                    };
                     let r = self.w.dial(i, opts);
                     let after = self.w.n_dials(i);
                     let info = self.m[i].ids.entry(id).or_default();
@@ -582,16 +673,23 @@ where
                         self.fail("C03:connection-id-reused", json!({"node": i, "conn": id}));
                         return;
                     }
+                    let rejected_for_condition = r == Err(ErrKind::ConditionFalse);
                     match r {
                         Ok(_) => {
                             info.handed_out = true;
                             info.outbound = true;
                             info.expected = exp;
+                            info.role_override = *override_role;
                             self.m[i].pend_out += 1;
                             for d in before..after {
                                 self.m[i].dial_conn.insert(d, id);
                             }
-                            let _ = was_dialing_same;
+                            if *override_role {
+                                self.flags.role_override_dials += 1;
+                            }
+                            if !matches!(effective_cond, PeerCondition::Always) {
+                                self.flags.cond_true += 1;
+                            }
                         }
                         Err(k) => {
                             info.sync_err = Some(k);
@@ -600,6 +698,19 @@ where
                                 self.fail("C04:transport-dialed-for-rejected-dial", json!({"node": i, "conn": id}));
                             }
                         }
+                    }
+                    if rejected_for_condition {
+                        self.flags.cond_false += 1;
+                        if !connected && !dialing_plain && !matches!(effective_cond, PeerCondition::Disconnected) {
+                            self.flags.cond_false_by_role_override_dial += 1;
+                        }
+                    }
+                    if rejected_for_condition == should {
+                        let sig = if should { "C04:dial-rejected-although-condition-holds-in-history" } else { "C04:condition-false-in-history-but-dial-not-rejected" };
+                        self.fail(
+                            sig,
+                            json!({"node": i, "conn": id, "condition": format!("{effective_cond:?}"), "connected_in_history": connected, "dialing_in_history": dialing_any, "only_role_overridden_dials_pending": dialing_any && !dialing_plain, "result": if rejected_for_condition { "DialPeerConditionFalse" } else { "other" }}),
+                        );
                     }
                     self.m[i].seen_dials = after;
                     self.check_counters(i, "after dial()");
@@ -664,7 +775,7 @@ where
                 }
                 let open_before: BTreeSet<usize> = self.w.open_dials(i).into_iter().collect();
                 let in_before = self.w.incoming.len();
-                self.exec_op(&Op::Dial { n: *n, to: *to, with_peer: true, p2p_suffix: false, cond: 0, naddrs: 1, via_behaviour: false });
+                self.exec_op(&Op::Dial { n: *n, to: *to, with_peer: true, p2p_suffix: false, cond: 0, naddrs: 1, via_behaviour: false, override_role: false });
                 let new: Vec<usize> = self.w.open_dials(i).into_iter().filter(|d| !open_before.contains(d)).collect();
                 if let Some(d) = new.first() {
                     // resolve exactly this dial: find its position among the open dials
@@ -743,6 +854,43 @@ where
                 let r = self.w.nodes[i].swarm.disconnect_peer_id(p);
                 if r.is_ok() != was {
                     self.fail("C02:disconnect-return-disagrees", json!({"node": i, "peer": p.to_string(), "returned_ok": r.is_ok(), "model_connected": was}));
+                }
+            }
+            Op::DisconnectDialing { n, pick: p, run_tasks, via_behaviour } => {
+                let i = *n as usize % nn;
+                let pend: Vec<(u64, PeerId)> = self.m[i].ids.iter().filter(|(_, x)| x.outbound && x.handed_out && x.terminal.is_empty()).filter_map(|(c, x)| x.expected.map(|p| (*c, p))).collect();
+                if pend.is_empty() {
+                    return;
+                }
+                let (_, peer) = pend[pick(*p, pend.len())];
+                if *run_tasks {
+                    self.w.exec.drain(64);
+                }
+                self.flags.disconnect_dialing += 1;
+                // every pending dial for that peer is aborted by the call
+                let same: Vec<u64> = pend.iter().filter(|(_, q)| *q == peer).map(|(c, _)| *c).collect();
+                for c in same {
+                    // a transport dial of this attempt succeeded and authenticated (whatever id): the attempt has a result
+                    let resolved = self.m[i].auths.contains_key(&c);
+                    if resolved {
+                        self.flags.disconnect_after_resolution += 1;
+                        if *run_tasks {
+                            self.flags.disconnect_with_result_queued += 1;
+                            if let Some(x) = self.m[i].ids.get_mut(&c) {
+                                x.raced = true;
+                            }
+                        }
+                    }
+                }
+                if *via_behaviour {
+                    let f = 0;
+                    self.w.nodes[i].swarm.behaviour_mut().probe(f).push_cmd(ToSwarm::CloseConnection { peer_id: peer, connection: CloseConnection::All });
+                } else {
+                    let was = self.m[i].est.contains_key(&peer);
+                    let r = self.w.nodes[i].swarm.disconnect_peer_id(peer);
+                    if r.is_ok() != was {
+                        self.fail("C02:disconnect-return-disagrees", json!({"node": i, "peer": peer.to_string(), "returned_ok": r.is_ok(), "model_connected": was}));
+                    }
                 }
             }
             Op::RemoteClose { pick: p } => {
@@ -825,15 +973,23 @@ fn project_log(recs: &[Rec], node: u8, field: u8) -> Vec<(char, u64)> {
         .collect()
 }
 
-fn run_generic<B: Probes>(case: &Case, make: impl FnMut(usize, simswarm::probe::SharedLog) -> B) -> RunResult
+fn run_generic_focus<B: Probes>(case: &Case, focus: Option<&str>, make: impl FnMut(usize, simswarm::probe::SharedLog) -> B) -> RunResult
 where
     B::ToSwarm: std::fmt::Debug,
 {
-    run_with(case, make, &mut ())
+    run_with_focus(case, focus, make, &mut ())
 }
 
 /// Run a case over an arbitrary probe-containing behaviour with a check-specific extension.
 pub fn run_with<B: Probes>(case: &Case, make: impl FnMut(usize, simswarm::probe::SharedLog) -> B, ext: &mut dyn Ext<B>) -> RunResult
+where
+    B::ToSwarm: std::fmt::Debug,
+{
+    run_with_focus(case, None, make, ext)
+}
+
+/// `run_with`, but only failures whose signature starts with `focus` end the run (see `Interp::focus`).
+pub fn run_with_focus<B: Probes>(case: &Case, focus: Option<&str>, make: impl FnMut(usize, simswarm::probe::SharedLog) -> B, ext: &mut dyn Ext<B>) -> RunResult
 where
     B::ToSwarm: std::fmt::Debug,
 {
@@ -845,10 +1001,12 @@ where
         c.with_dial_concurrency_factor(conc).with_notify_handler_buffer_size(buf).with_idle_connection_timeout(std::time::Duration::from_secs(3600))
     });
     let mut it = Interp {
+        focus: focus.map(|s| s.to_string()),
         ext,
         w,
         m: (0..nn).map(|_| NodeModel::default()).collect(),
         fails: vec![],
+        fail_at: vec![],
         flags: Flags::default(),
         next_n: 0,
         emissions: vec![],
@@ -857,14 +1015,14 @@ where
         in_auth_expected: vec![],
     };
     for op in &case.ops {
-        if !it.fails.is_empty() {
+        if it.halted() {
             break;
         }
         it.exec_op(op);
     }
     // wind down: everything the script left pending fails, then quiescence
     let mut settled = true;
-    if it.fails.is_empty() {
+    if !it.halted() {
         settled = it.settle();
         for i in 0..nn {
             for d in it.w.open_dials(i) {
@@ -877,11 +1035,11 @@ where
         settled &= it.settle();
     }
     let recs: Vec<Rec> = it.w.log.lock().unwrap().recs.clone();
-    let complete = it.fails.is_empty();
-    if it.fails.is_empty() && settled {
+    let complete = !it.halted();
+    if !it.halted() && settled {
         final_checks(&mut it, &recs, case);
     }
-    if it.fails.is_empty() && settled {
+    if !it.halted() && settled {
         if let Some((sig, detail)) = it.ext.finish(&mut it.w, &it.m) {
             it.fail(&sig, detail);
         }
@@ -912,7 +1070,10 @@ where
         }
     }
     let events = it.w.nodes.iter().map(|n| n.events.clone()).collect();
-    let res = RunResult { fails: it.fails, flags: it.flags, events, log: recs, models: it.m, settled, complete, peers, links, handlers, emissions: it.emissions };
+    while it.fail_at.len() < it.fails.len() {
+        it.fail_at.push(recs.len() as u64);
+    }
+    let res = RunResult { fails: it.fails, fail_at: it.fail_at, flags: it.flags, events, log: recs, models: it.m, settled, complete, peers, links, handlers, emissions: it.emissions };
     drop(it.w);
     release_phantoms();
     res
@@ -1075,6 +1236,11 @@ where
 }
 
 pub fn run_case(case: &Case) -> RunResult {
+    run_case_focus(case, None)
+}
+
+/// `run_case` for the check of one property: failures of neighbouring properties do not end the program.
+pub fn run_case_focus(case: &Case, focus: Option<&str>) -> RunResult {
     let script_for = |node: usize, field: u8| -> ProbeScript {
         ProbeScript {
             deny: case.denies.iter().filter(|(n, f, _, _)| *n as usize == node && *f == field).map(|(_, _, d, k)| (*d, *k)).collect(),
@@ -1085,9 +1251,9 @@ pub fn run_case(case: &Case) -> RunResult {
         }
     };
     match case.fields.clamp(1, 3) {
-        1 => run_generic(case, |i, log| Probe::new(i as u8, 0, log, script_for(i, 0))),
-        2 => run_generic(case, |i, log| Two { a: Probe::new(i as u8, 0, log.clone(), script_for(i, 0)), b: Probe::new(i as u8, 1, log, script_for(i, 1)) }),
-        _ => run_generic(case, |i, log| Three {
+        1 => run_generic_focus(case, focus, |i, log| Probe::new(i as u8, 0, log, script_for(i, 0))),
+        2 => run_generic_focus(case, focus, |i, log| Two { a: Probe::new(i as u8, 0, log.clone(), script_for(i, 0)), b: Probe::new(i as u8, 1, log, script_for(i, 1)) }),
+        _ => run_generic_focus(case, focus, |i, log| Three {
             a: Probe::new(i as u8, 0, log.clone(), script_for(i, 0)),
             b: Probe::new(i as u8, 1, log.clone(), script_for(i, 1)),
             c: Probe::new(i as u8, 2, log, script_for(i, 2)),
@@ -1142,8 +1308,8 @@ pub fn op(nodes: u8, w: Weights) -> impl Strategy<Value = Op> {
         (2, n.clone().prop_map(|n| Op::Listen { n }).boxed()),
         (
             w.dial,
-            (n.clone(), target(nodes), any::<bool>(), any::<bool>(), 0u8..8, 1u8..4, proptest::bool::weighted(0.25))
-                .prop_map(|(n, to, with_peer, p2p_suffix, cond, naddrs, via_behaviour)| Op::Dial { n, to, with_peer, p2p_suffix, cond, naddrs, via_behaviour })
+            (n.clone(), target(nodes), any::<bool>(), any::<bool>(), 0u8..8, 1u8..4, proptest::bool::weighted(0.25), proptest::bool::weighted(0.2))
+                .prop_map(|(n, to, with_peer, p2p_suffix, cond, naddrs, via_behaviour, override_role)| Op::Dial { n, to, with_peer, p2p_suffix, cond, naddrs, via_behaviour, override_role })
                 .boxed(),
         ),
         (w.connect, (n.clone(), target(nodes), any::<bool>()).prop_map(|(n, to, settle)| Op::Connect { n, to, settle }).boxed()),
@@ -1154,6 +1320,10 @@ pub fn op(nodes: u8, w: Weights) -> impl Strategy<Value = Op> {
         (w.close, (n.clone(), any::<u16>()).prop_map(|(n, pick)| Op::Close { n, pick }).boxed()),
         (w.close, (n.clone(), 0u8..3, any::<u16>(), any::<bool>()).prop_map(|(n, field, pick, all)| Op::BehClose { n, field, pick, all }).boxed()),
         (w.disconnect, (n.clone(), 0u8..8).prop_map(|(n, peer)| Op::Disconnect { n, peer }).boxed()),
+        (
+            w.disconnect,
+            (n.clone(), any::<u16>(), proptest::bool::weighted(0.6), proptest::bool::weighted(0.3)).prop_map(|(n, pick, run_tasks, via_behaviour)| Op::DisconnectDialing { n, pick, run_tasks, via_behaviour }).boxed(),
+        ),
         (w.remote_close, any::<u16>().prop_map(|pick| Op::RemoteClose { pick }).boxed()),
         (w.remote_close, any::<u16>().prop_map(|pick| Op::Fault { pick }).boxed()),
         (w.notify, (n.clone(), 0u8..3, any::<u16>(), any::<bool>(), hcmd()).prop_map(|(n, field, pick, any, cmd)| Op::Notify { n, field, pick, any, cmd }).boxed()),
@@ -1183,7 +1353,7 @@ pub fn case_strategy(max_nodes: u8, fields: std::ops::RangeInclusive<u8>, max_de
 /// `case_strategy` plus behaviour-specific `Op::Ext { n, kind in 0..kinds, arg in 0..args }` operations with weight `weight`
 /// (relative to the sum of the `Weights`).
 pub fn case_strategy_ext(max_nodes: u8, fields: std::ops::RangeInclusive<u8>, max_denies: usize, ops: std::ops::RangeInclusive<usize>, w: Weights, weight: u32, kinds: u8, args: u8) -> BoxedStrategy<Case> {
-    let total = 2 + w.dial + w.connect + w.resolve_ok + w.resolve_err + 2 * w.inbound + w.resolve_ok + 2 * w.close + w.disconnect + 2 * w.remote_close + w.notify + w.poll + w.step + w.settle;
+    let total = 2 + w.dial + w.connect + w.resolve_ok + w.resolve_err + 2 * w.inbound + w.resolve_ok + 2 * w.close + 2 * w.disconnect + 2 * w.remote_close + w.notify + w.poll + w.step + w.settle;
     (1..=max_nodes, fields)
         .prop_flat_map(move |(nodes, fields)| {
             let one = prop_oneof![
